@@ -782,6 +782,8 @@ class Spec(object):
             return True
         if isinstance(v, Op) and v.op in ("bits", "byte", "or", "and", "shr", "mul", "add", "sub", "mod", "floordiv", "ord", "len", "concat", "new"):
             return True
+        if isinstance(v, Op) and v.op == "call" and v.args and v.args[0] in ("list", "tuple", "dict", "set", "frozenset", "bytes", "bytearray", "str", "int", "sorted", "len", "repr"):
+            return True  # constructors and total builtins never return None
         return None
 
     def ev_IfExp(self, e, env, g):
